@@ -78,6 +78,7 @@ class BuildState(object):
         self.obligations = {}     # prop -> (n_theorems, n_discharged)
         self.forbidden = []
         self.coqchk = {}          # prop -> summary printed by coqchk -o (thorough tier)
+        self.theorem_names = {}   # prop -> names of the Theorem statements of Props/<prop>.v
 
 
 _lock_fd = None
@@ -101,6 +102,38 @@ def _unlock():
         _lock_fd = None
 
 
+_tree_fd = None
+
+
+def tree_lock():
+    """Checks share one build directory (Gen/Consts.v, the .vo files, the model binary), and those depend on the tree
+    under test.  Runs against the SAME tree may overlap (shared lock); a run against a DIFFERENT tree (VERIF_REPO: a
+    seeded change, a proposed repair) waits until the others are done, and they wait for it.  Held until exit."""
+    global _tree_fd
+    import fcntl
+    import hashlib
+    if _tree_fd is not None:
+        return
+    rc1, head, _ = sh(["git", "-C", REPO, "rev-parse", "HEAD"], timeout=60)
+    rc2, diff, _ = sh(["git", "-C", REPO, "diff", "HEAD"], timeout=120)
+    h = hashlib.sha256((os.path.realpath(REPO) if rc1 else "") .encode() + head.encode() + diff.encode()).hexdigest()[:20]
+    os.makedirs(WORK, exist_ok=True)
+    fd = open(os.path.join(WORK, ".tree.lock"), "a+")
+    while True:
+        fcntl.flock(fd, fcntl.LOCK_SH)
+        fd.seek(0)
+        if fd.read().strip() == h:
+            break
+        fcntl.flock(fd, fcntl.LOCK_UN)
+        fcntl.flock(fd, fcntl.LOCK_EX)          # every run on the other tree has finished
+        fd.seek(0)
+        fd.truncate()
+        fd.write(h)
+        fd.flush()
+        fcntl.flock(fd, fcntl.LOCK_UN)          # re-enter through the shared path (another tree may have slipped in)
+    _tree_fd = fd
+
+
 def props_files(prop):
     return os.path.join(ROCQ, "theories", "Props", "%s.v" % prop)
 
@@ -108,6 +141,7 @@ def props_files(prop):
 def build(prop=None, need_model=True):
     """Regenerate Consts.v from /repo, rebuild what changed, return BuildState."""
     bs = BuildState()
+    tree_lock()
     _lock()
     try:
         rc, out, _ = sh([PY, os.path.join(VERIF, "tools", "gen_consts.py"), REPO], timeout=120)
@@ -156,7 +190,10 @@ def _collect_assumptions(bs, prop):
     rc, out, _ = sh("timeout 600 coqc -Q theories Shexer theories/Props/%s.v" % prop, cwd=ROCQ, timeout=660)
     blocks = re.split(r"(?=Closed under the global context|Axioms:)", out)
     blocks = [b.strip() for b in blocks if b.strip().startswith(("Closed", "Axioms"))]
-    bs.assumptions[prop] = list(zip(theorems, blocks))
+    # one Print Assumptions per statement, in file order (theorems, lemmas, corollaries and examples alike)
+    printed = re.findall(r"^\s*Print Assumptions\s+([\w']+)", text, re.M)
+    bs.assumptions[prop] = list(zip(printed if len(printed) == len(blocks) else theorems, blocks))
+    bs.theorem_names[prop] = theorems
     bs.obligations[prop] = (n, n if rc == 0 else 0)
     if rc != 0:
         bs.proof_ok[prop] = False
@@ -218,8 +255,16 @@ class ModelBin(object):
     """One extracted-model process; tables are lists of lists of str/bytes."""
 
     def __init__(self):
+        def _big_stack():          # extracted list functions are not tail recursive: long documents need stack
+            import resource
+            soft, hard = resource.getrlimit(resource.RLIMIT_STACK)
+            want = hard if hard != resource.RLIM_INFINITY else resource.RLIM_INFINITY
+            try:
+                resource.setrlimit(resource.RLIMIT_STACK, (want, hard))
+            except (ValueError, OSError):
+                pass
         self.p = subprocess.Popen([os.path.join(ROCQ, "ocaml", "modelbin")], stdin=subprocess.PIPE,
-                                  stdout=subprocess.PIPE, bufsize=1 << 16)
+                                  stdout=subprocess.PIPE, bufsize=1 << 16, preexec_fn=_big_stack)
 
     def call(self, name, table, raw=False):
         lines = ["%s %d" % (_hex(name), len(table))]
@@ -364,6 +409,7 @@ class Run(object):
         cov.setdefault("trusted_base", TRUSTED_BASE_COMMON)
         if bs:
             cov["print_assumptions"] = [{"theorem": t, "assumptions": a} for t, a in bs.assumptions.get(prop, [])]
+            cov["statements_with_axioms"] = [t for t, a in bs.assumptions.get(prop, []) if not a.startswith("Closed")]
             cov["gen_consts_ok"] = bs.gen_ok
             cov["forbidden_constructs_found"] = bs.forbidden
             if bs.coqchk.get(prop):
